@@ -48,13 +48,17 @@ func errClass(err error) string {
 }
 
 func dumpReal(root string) string {
+	_ = os.Readlink
 	var out []string
 	filepath.Walk(root, func(p string, info fs.FileInfo, err error) error {
 		if err != nil || p == root {
 			return nil
 		}
 		rel := p[len(root):]
-		if info.IsDir() {
+		if info.Mode()&fs.ModeSymlink != 0 {
+			t, _ := os.Readlink(p)
+			out = append(out, rel+"->"+strings.TrimPrefix(t, root))
+		} else if info.IsDir() {
 			out = append(out, rel+"/")
 		} else {
 			b, _ := os.ReadFile(p)
@@ -73,7 +77,9 @@ func dumpModel(f *FS, root string) string {
 			continue
 		}
 		rel := k[len(root):]
-		if n.Dir {
+		if n.Link != "" {
+			out = append(out, rel+"->"+strings.TrimPrefix(n.Link, root))
+		} else if n.Dir {
 			out = append(out, rel+"/")
 		} else {
 			out = append(out, rel+"="+strconv.Quote(string(n.Data)))
@@ -117,7 +123,7 @@ func TestConform(t *testing.T) {
 		for step := 0; step < 14; step++ {
 			ops++
 			p := root + "/" + names[rng.Intn(len(names))]
-			switch rng.Intn(16) {
+			switch rng.Intn(18) {
 			case 0:
 				e1 := os.MkdirAll(p, 0o777)
 				e2 := MkdirAll(p, 0o777)
@@ -240,6 +246,55 @@ func TestConform(t *testing.T) {
 					o2, e2 := FileSeek(h.v, off, wh)
 					if e1 == nil && e2 == nil && o1 != o2 {
 						fail(step, "seek", fmt.Sprint(o1), fmt.Sprint(o2))
+					}
+				}
+			case 16, 17:
+				// symbolic links as last path component: l1, l2 point at a regular name or nowhere
+				l := root + "/" + []string{"l1", "l2"}[rng.Intn(2)]
+				tgt := root + "/" + []string{"a", "b", "d/x", "nowhere"}[rng.Intn(4)]
+				switch rng.Intn(7) {
+				case 0, 1:
+					e1 := os.Symlink(tgt, l)
+					e2 := Symlink(tgt, l)
+					if errClass(e1) != errClass(e2) {
+						fail(step, "symlink "+l, errClass(e1), errClass(e2))
+					}
+				case 2:
+					i1, e1 := os.Stat(l)
+					i2, e2 := Stat(l)
+					if errClass(e1) != errClass(e2) || (e1 == nil && (i1.IsDir() != i2.IsDir() || (!i1.IsDir() && i1.Size() != i2.Size()))) {
+						fail(step, "stat "+l, errClass(e1), errClass(e2))
+					}
+				case 3:
+					i1, e1 := os.Lstat(l)
+					i2, e2 := Lstat(l)
+					if errClass(e1) != errClass(e2) || (e1 == nil && i1.Mode()&fs.ModeSymlink != i2.Mode()&fs.ModeSymlink) {
+						fail(step, "lstat "+l, errClass(e1), errClass(e2))
+					}
+				case 4:
+					fl := flagSets[rng.Intn(len(flagSets))]
+					r, e1 := os.OpenFile(l, fl, 0o666)
+					v, e2 := OpenFile(l, fl, 0o666)
+					if errClass(e1) != errClass(e2) {
+						fail(step, fmt.Sprintf("open-through-link %s %#x", l, fl), errClass(e1), errClass(e2))
+					}
+					if e1 == nil && e2 == nil {
+						handles = append(handles, pair{r, v, fl&(os.O_WRONLY|os.O_RDWR) != 0, fl&os.O_APPEND != 0})
+					} else if r != nil {
+						r.Close()
+					}
+				case 5:
+					data := []byte("via-link")
+					e1 := os.WriteFile(l, data, 0o666)
+					e2 := WriteFile(l, data, 0o666)
+					if errClass(e1) != errClass(e2) {
+						fail(step, "writefile-through-link "+l, errClass(e1), errClass(e2))
+					}
+				case 6:
+					e1 := os.Remove(l)
+					e2 := Remove(l)
+					if errClass(e1) != errClass(e2) {
+						fail(step, "remove-link "+l, errClass(e1), errClass(e2))
 					}
 				}
 			case 15:
